@@ -1535,17 +1535,21 @@ def _is_mask(idx):
 
 
 def _fancy_offsets(ev, x: NdArr, idx):
-    """A tuple of equally long 1-d integer index arrays, one per axis (what np.nonzero returns), or one such array for a
-    1-d x: the flat offsets selected, in order; None if idx is not of that form."""
+    """A tuple of equally long 1-d integer index arrays for the leading axes (what np.nonzero / np.where(cond) return), or one
+    such array: (flat offsets selected in order, shape of the selection); for fewer index arrays than axes every selected
+    position stands for the whole trailing block.  None if idx is not of that form."""
     items = idx.items if isinstance(idx, TupleV) else [idx]
     if not items or not all(isinstance(i, NdArr) and i.ndim == 1 and all(isinstance(e, Num) and e.expr.is_Integer for e in i.items) for i in items):
         return None
-    if len(items) != x.ndim or len({len(i.items) for i in items}) != 1:
+    if len(items) > x.ndim or len({len(i.items) for i in items}) != 1:
         return None
     strides, acc = [], 1
     for s_ in reversed(x.shape):
         strides.insert(0, acc)
         acc *= s_
+    import itertools
+    trailing = x.shape[len(items):]
+    tail = [sum(c * st for c, st in zip(combo, strides[len(items):])) for combo in itertools.product(*[range(k) for k in trailing])]
     offs = []
     for k in range(len(items[0].items)):
         off = 0
@@ -1557,8 +1561,8 @@ def _fancy_offsets(ev, x: NdArr, idx):
                 from .symeval import Raised
                 raise Raised("IndexError", None, "index out of bounds")
             off += v * strides[ax]
-        offs.append(off)
-    return offs
+        offs.extend(off + t for t in tail)
+    return offs, (len(items[0].items),) + tuple(trailing)
 
 
 def h_nonzero(ev, args, kwargs, fr, node, flat=False):
@@ -1574,9 +1578,10 @@ def h_nonzero(ev, args, kwargs, fr, node, flat=False):
 
 def nd_getitem(ev, x: NdArr, idx, fr, node):
     from .symeval import Raised
-    offs = _fancy_offsets(ev, x, idx)
-    if offs is not None:
-        out = NdArr((len(offs),), [x.items[o] for o in offs])
+    fo = _fancy_offsets(ev, x, idx)
+    if fo is not None:
+        offs, shp_ = fo
+        out = NdArr(shp_, [x.items[o] for o in offs])
         out.dtype = getattr(x, "dtype", None)
         return out
     if _is_mask(idx) and idx.shape == x.shape:
@@ -1713,9 +1718,15 @@ def nd_setitem(ev, x: NdArr, idx, v, fr, node):
             for i in pos:
                 x.items[i] = v
         return
-    offs = _fancy_offsets(ev, x, idx)
-    if offs is not None:
+    fo = _fancy_offsets(ev, x, idx)
+    if fo is not None:
+        offs, shp_ = fo
         ev.trace.append(("nd-store", x, idx, v, node))
+        if isinstance(v, NdArr):
+            if len(v.items) == 1:
+                v = v.items[0]
+            elif len(shp_) > 1 and len(v.items) * (len(offs) // shp_[0]) == len(offs) and v.shape == (shp_[0],):
+                raise_value_error(ev, f"shape mismatch: value array of shape {v.shape} could not be broadcast to indexing result of shape {shp_}", node, fr)
         if isinstance(v, NdArr):
             if len(v.items) != len(offs):
                 from .symeval import Raised
@@ -2451,6 +2462,47 @@ def h_two_product(ev, args, kwargs, fr, node):
     ev.unsupported("two_product of these operands", node, fr)
 
 
+def h_roll(ev, args, kwargs, fr, node):
+    x = args[0]
+    sh = kwargs.get("shift", args[1] if len(args) > 1 else None)
+    axis = kwargs.get("axis", args[2] if len(args) > 2 else NONE)
+    if isinstance(x, StackV):
+        return x.map(lambda e: h_roll(ev, [e, sh, axis], {}, fr, node))
+    if isinstance(axis, NoneV) or not isinstance(sh, Num):
+        ev.unsupported("np.roll without an axis / with a non-scalar shift", node, fr)
+    ax = ev.concrete_int(axis)
+    if ax is None:
+        ev.unsupported("np.roll along a symbolic axis", node, fr)
+    if isinstance(x, NdArr):
+        k = ev.concrete_int(sh)
+        if k is None:
+            ev.unsupported("np.roll of an explicit array by a symbolic amount", node, fr)
+        out = nd_roll(x, ax, k)
+        out.dtype = getattr(x, "dtype", None)
+        return out
+    if not isinstance(x, Num) or x.shape is None:
+        ev.unsupported(f"np.roll of {x!r}", node, fr)
+    n = x.shape[ax % len(x.shape)]
+    axes_out = None
+    if x.axes is not None:
+        axes_out = [None if i == ax % len(x.shape) else a_ for i, a_ in enumerate(x.axes)]
+    half = sp.floor(n / 2) if not sp.sympify(n).is_number else sp.Integer(int(n) // 2)
+    k = sh.expr
+
+    def same(u_, v_):
+        try:
+            return sp.simplify(u_ - v_) == 0
+        except Exception:
+            return False
+    if same(k, half):
+        name = "FFTSHIFT"        # roll by n//2 along one axis is fftshift along it
+    elif same(k, -half):
+        name = "IFFTSHIFT"
+    else:
+        return Num(F["Roll"](x.expr, k, ax % len(x.shape)), kind=x.kind, shape=x.shape, axes=axes_out, backend=x.backend, tag=x.tag, dtype=x.dtype)
+    return Num(F[name](x.expr, F["Tup"](sp.Integer(ax))), kind=x.kind, shape=x.shape, axes=axes_out, backend=x.backend, tag=x.tag, dtype=x.dtype)
+
+
 def h_full(ev, args, kwargs, fr, node):
     fill = kwargs.get("fill_value", args[1] if len(args) > 1 else None)
     if not isinstance(fill, Num) or not fill.expr.is_number:
@@ -2864,6 +2916,8 @@ def h_bool_(ev, args, kwargs, fr, node):
 
 
 def h_where(ev, args, kwargs, fr, node):
+    if len(args) == 1:
+        return h_nonzero(ev, args, kwargs, fr, node)        # np.where(cond) is np.nonzero(cond)
     c, a, b = args
     if isinstance(c, NdArr):
         # explicit boolean mask over a data array: keep the mask in the trace so that rules can read which cells
@@ -3197,6 +3251,7 @@ EXT = {
     "astropy.time.utils.two_sum": lambda ev, a, k, fr, n: h_two_sum(ev, a, k, fr, n),
     "astropy.time.utils.two_product": lambda ev, a, k, fr, n: h_two_product(ev, a, k, fr, n),
     "numpy.nonzero": lambda ev, a, k, fr, n: h_nonzero(ev, a, k, fr, n), "numpy.flatnonzero": lambda ev, a, k, fr, n: h_nonzero(ev, a, k, fr, n, flat=True),
+    "numpy.roll": lambda ev, a, k, fr, n: h_roll(ev, a, k, fr, n),
     "numpy.full": lambda ev, a, k, fr, n: h_full(ev, a, k, fr, n), "numpy.tensordot": lambda ev, a, k, fr, n: h_tensordot(ev, a, k, fr, n),
     "numpy.shape": lambda ev, a, k, fr, n: h_np_shape(ev, a, k, fr, n), "numpy.broadcast_shapes": lambda ev, a, k, fr, n: h_broadcast_shapes(ev, a, k, fr, n),
     "numpy.unravel_index": lambda ev, a, k, fr, n: h_unravel_index(ev, a, k, fr, n),
